@@ -26,7 +26,8 @@ Scheduling (resolves every race; the Gallina model `Equalizer/EqModel.v` follows
 * where an idle worker dies.  An idle worker spends its time in the last BLOCKING call it made (`parked_on`):
   `Queue.get(True, t)` with t > 0 or `Event.wait(t)` with t != 0; non-blocking calls (`is_set()`, `get(False)`,
   `wait(0)`) do not move it.  A worker that dies while idle - killed by the parent at the timeout (`drops`) or by
-  somebody else between two replays (`dies_before`) - dies there:
+  somebody else between two replays (`dies_before`) - dies there (an idle loop that blocks both on an event and on a
+  queue is hit inside `Event.wait`, the place with the worse consequence):
     - inside `get(True, 0.05)` on the task queue a killed worker holds that queue's read lock
       (`multiprocessing.Queue.get` polls under `_rlock`): the queue is poisoned, no later worker can take a task from
       it (observed on real processes);
@@ -160,7 +161,7 @@ class FakeEvent(object):
     def wait(self, timeout=None):
         w = self.sim.worker
         if w is not None and timeout != 0 and not self.flag:
-            w.parked_on = self          # a blocking call: this is where the idle worker sleeps
+            w.parked_on = w.parked_event = self      # a blocking call: this is where the idle worker sleeps
         return self.is_set()
 
 
@@ -251,7 +252,7 @@ class FakeQueue(object):
                     it.fired = True
                     raise WorkerDiesBefore()
                 self.items.pop(0)
-                w.parked_on = None
+                w.parked_on = w.parked_event = None
                 w.served.append(rid)
                 w.took_at = sim.clock
                 return x
@@ -303,6 +304,7 @@ class FakeProcess(object):
         self.took_at = 0
         self.deaf = False
         self.parked_on = None     # queue / event on which this worker sleeps while idle (its last blocking call)
+        self.parked_event = None  # event it has slept on since it last took a task
         self.put_refused = False
         self.playing = None
         self.yield_requested = False
@@ -358,6 +360,10 @@ class FakeProcess(object):
         pass
 
     # -- simulator side
+    def deathbed(self):
+        """where an idle worker is when it dies: an idle loop that blocks in several places is hit in Event.wait"""
+        return self.parked_event or self.parked_on
+
     def state_name(self):
         return self.state if self.state != 'dead' else 'dead:' + self.how
 
@@ -373,8 +379,8 @@ class FakeProcess(object):
             return
         if sig not in (signal.SIGTERM, signal.SIGKILL, signal.SIGINT):
             return
-        if self.state == 'idle' and self.parked_on is not None:
-            self.parked_on.abandoned(self, killed=True)          # dies where it sleeps (read lock held / registered sleeper)
+        if self.state == 'idle' and self.deathbed() is not None:
+            self.deathbed().abandoned(self, killed=True)         # dies where it sleeps (read lock held / registered sleeper)
         if self.state == 'hung' and self.held_q is not None:     # the late answer lands just before the signal
             self.held_q.items.append(_Item(self.held))
             self.held = self.held_q = None
@@ -402,8 +408,8 @@ class FakeProcess(object):
             self.die('exit', code)
         except WorkerDiesBefore:
             self.die('before', -9)
-            if self.parked_on is not None:
-                self.parked_on.abandoned(self, killed=False)
+            if self.deathbed() is not None:
+                self.deathbed().abandoned(self, killed=False)
         except WorkerHang:
             if self.state != 'hung':
                 self.state = 'hung'
